@@ -98,7 +98,7 @@ theorem wait_after_cascade {s : State} (h : Reachable s) (hw : (step s .waitRetu
   · exact hok.1
 
 example : ∃ s, Reachable s ∧ (step s .waitReturns).isSome :=
-  ⟨_, ⟨1, false, [.register, .addEvent 0 true [7], .pop 0 0, .ruleReturns 0 true, .taskDone 0, .post,
+  ⟨_, ⟨1, false, [.register, .regHandler, .addEvent 0 true [7], .pop 0 0, .ruleReturns 0 true, .taskDone 0, .post,
     .observerRuns .wait], rfl⟩, by decide⟩
 
 /-- the same after the return -/
@@ -154,7 +154,7 @@ theorem progress {s : State} {i : Nat} {m : Mon} (hm : s.mons[i]? = some m)
 
 example : ∃ s, Reachable s ∧ ∃ m, s.mons[0]? = some m ∧ m.phase.finished = false ∧ m.phase ≠ .fresh ∧
     s.workerFree 0 = true :=
-  ⟨_, ⟨1, false, [.addEvent 0 true [7]], rfl⟩, by decide⟩
+  ⟨_, ⟨1, false, [.regHandler, .addEvent 0 true [7]], rfl⟩, by decide⟩
 
 /-- In a state where no engine step is enabled (and the pool has at least one worker) every
     monitor that was handed to `AddEvent` is finished. -/
@@ -221,7 +221,7 @@ def sEnd : State :=
     unfinished := 0, posted := 1, waiting := true, handlerReg := true, released := 1, handlerCalls := 1 }
 
 theorem sEnd_reachable : Reachable sEnd :=
-  ⟨1, false, [.register, .addEvent 0 true [7], .pop 0 0, .ruleReturns 0 false, .taskDone 0,
+  ⟨1, false, [.register, .regHandler, .addEvent 0 true [7], .pop 0 0, .ruleReturns 0 false, .taskDone 0,
     .setErrors 0, .errFinish 0, .notified 0, .dropQueue, .post, .observerRuns .wait, .observerRuns .handler,
     .observerRuns .queue], by decide⟩
 
@@ -243,6 +243,60 @@ theorem sEnd_quiescent : ∀ e, e.internal = true → step sEnd e = none := by
 example : ∃ s, Reachable s ∧ 0 < s.workers ∧ (∀ e, e.internal = true → step s e = none) ∧
     (∀ m ∈ s.mons, m.phase ≠ .fresh) ∧ s.waiting = true ∧ s.handlerReg = true :=
   ⟨sEnd, sEnd_reachable, by decide, sEnd_quiescent, by decide, rfl, rfl⟩
+
+/-- `AddEvent` registers the finish-handler observer BEFORE the root's task can be taken by a
+    worker: whenever the root monitor has been handed over with a triggering event, the observer is
+    in place (the model's `addEvent 0 true` — `Activate` + `pool.AddTask` — is only enabled after
+    `regHandler`; the order in the Go code is tied by the hook points `cascade.handler.registered`
+    / `cascade.push` in every replayed trace). -/
+theorem handler_registered_before_push {s : State} (h : Reachable s) {r : Mon}
+    (hr : s.mons[0]? = some r) (hph : r.phase ≠ .fresh) (hsk : r.skipped = false) : s.handlerReg = true := by
+  have hi := inv_reachable h
+  cases hreg : s.handlerReg with
+  | true => rfl
+  | false =>
+    rcases hi.hreg hreg r hr with h1 | h1
+    · exact absurd h1 hph
+    · rw [hsk] at h1; cases h1
+
+/-- **the cascade's finish notification fires exactly once** (over the split steps of `AddEvent`):
+    never twice; and for a root handed over with a triggering event, once no engine step is enabled
+    and every monitor is finished, the finish handler has run exactly once. For a skipped
+    (non-triggering) root event no handler observer is ever registered and it runs zero times. -/
+theorem finish_notification_exactly_once {s : State} (h : Reachable s) :
+    s.posted ≤ 1 ∧ s.handlerCalls ≤ 1 ∧
+    (∀ r, s.mons[0]? = some r → r.phase ≠ .fresh →
+      (r.skipped = false →
+        (∀ e, e.internal = true → step s e = none) → (∀ m ∈ s.mons, m.phase.finished = true) →
+          s.handlerCalls = 1) ∧
+      (r.skipped = true → s.handlerCalls = 0)) := by
+  have hi := inv_reachable h
+  refine ⟨(posted_once h).1, (released_once h).2, ?_⟩
+  intro r hr hph
+  constructor
+  · intro hsk hq hall
+    exact (quiescent_released h hq hall).2.2 (handler_registered_before_push h hr hph hsk)
+  · intro hsk
+    have hreg : s.handlerReg = false := by
+      cases hreg : s.handlerReg with
+      | false => rfl
+      | true => have := hi.hskip hreg r hr; rw [hsk] at this; cases this
+    have hle := hi.post_le
+    by_cases hp0 : s.posted = 0
+    · exact (hi.pre hp0).2.2.2.2.1
+    · have := (hi.post (by omega)).2
+      simp [hreg] at this
+      omega
+
+/-- negative witness: with the observer registered AFTER `pool.AddTask` (`stepLate`, not the code)
+    the cascade can end first; the state below is final (posted, nothing pending) with the handler
+    registered and never called — the notification is lost. -/
+theorem late_handler_registration_loses_notification :
+    ∃ s, [Event.addEvent 0 true [1], .pop 0 0, .ruleReturns 0 true, .taskDone 0, .post,
+          .observerRuns .queue, .regHandler].foldlM stepLate (init 1 false) = some s ∧
+      s.posted = 1 ∧ s.postPending = 0 ∧ s.dHandler = 0 ∧ s.handlerReg = true ∧ s.handlerCalls = 0 ∧
+      s.mons.all (fun m => m.phase.finished) = true :=
+  ⟨_, rfl, by decide⟩
 
 /-- when everything is finished but the waiter has not been released, the post or the wait
     callback is enabled -/
@@ -295,7 +349,7 @@ theorem errors_exact {s : State} (h : Reachable s) (hw : 0 < s.released) :
   exact report_eq_expected s.mons 0 (fun m hm => ⟨hi.mon_ok m hm, hall m hm⟩)
 
 example : ∃ s, Reachable s ∧ 0 < s.released ∧ allErrors s = [(0, some [8])] :=
-  ⟨_, ⟨1, false, [.register, .addEvent 0 true [7, 8], .pop 0 0, .ruleReturns 0 true, .ruleReturns 0 false,
+  ⟨_, ⟨1, false, [.register, .regHandler, .addEvent 0 true [7, 8], .pop 0 0, .ruleReturns 0 true, .ruleReturns 0 false,
     .taskDone 0, .setErrors 0, .errFinish 0, .post, .observerRuns .wait], rfl⟩, by decide⟩
 
 theorem report_mem (l : List Mon) (i k : Nat) (e : Option (List Nat)) (h : (k, e) ∈ reportFrom i l) :
@@ -339,7 +393,7 @@ theorem allErrors_safe {s : State} (h : Reachable s) :
     `SetErrors` and `Finish` while anybody (e.g. the error observer of the other task) asks. -/
 theorem allErrors_asserting_unsafe :
     ∃ s, Reachable s ∧ allErrorsAsserting s = none :=
-  ⟨_, ⟨2, false, [.addEvent 0 true [1], .pop 0 0, .newChild 0, .addEvent 1 true [2], .pop 1 1,
+  ⟨_, ⟨2, false, [.regHandler, .addEvent 0 true [1], .pop 0 0, .newChild 0, .addEvent 1 true [2], .pop 1 1,
     .ruleReturns 1 false, .ruleReturns 0 false, .taskDone 0, .taskDone 1, .setErrors 0, .errFinish 0,
     .setErrors 1, .allErrors], rfl⟩, by decide⟩
 
@@ -381,6 +435,7 @@ theorem measure_decreases {s s' : State} {e : Event} (h : Reachable s) (he : e.i
   have hle := hi.post_le
   cases e with
   | register => simp [Event.internal] at he
+  | regHandler => simp [Event.internal] at he
   | addEvent _ _ _ => simp [Event.internal] at he
   | newChild _ => simp [Event.internal] at he
   | waitReturns => simp [Event.internal] at he
@@ -558,6 +613,14 @@ theorem failed_is_history {s s' : State} {e : Event} (hs : step s e = some s') {
       · cases hs; exact same rfl
       · cases hs
     · cases hs
+  | regHandler =>
+    simp only [step] at hs
+    split at hs; · cases hs
+    split at hs
+    · split at hs
+      · cases hs; exact same rfl
+      · cases hs
+    · cases hs
   | addEvent j trig rules =>
     simp only [step] at hs
     split at hs
@@ -567,7 +630,9 @@ theorem failed_is_history {s s' : State} {e : Event} (hs : step s e = some s') {
         · split at hs
           · cases hs; exact viaSet hj rfl
           · cases hs
-        · cases hs; exact viaSet hj rfl
+        · split at hs
+          · cases hs
+          · cases hs; exact viaSet hj rfl
       all_goals cases hs
     · cases hs
   | newChild p =>
@@ -753,14 +818,14 @@ theorem sys_errors_exact {S : Sys} (h : S.Reachable) {r : Nat} {s : State} (hr :
   · exact returned_after_cascade hreach hwr
 
 example : ∃ S : Sys, S.Reachable ∧ S.roots.length = 2 ∧ ∃ s, S.roots[1]? = some s ∧ 0 < s.released :=
-  ⟨_, ⟨2, false, [.newRoot, .newRoot, .at 0 (.addEvent 0 true [1]), .at 0 (.pop 0 0), .at 1 .register,
-    .at 1 (.addEvent 0 true [5]), .at 1 (.pop 1 0), .at 1 (.ruleReturns 0 false), .at 1 (.taskDone 0),
+  ⟨_, ⟨2, false, [.newRoot, .newRoot, .at 0 .regHandler, .at 0 (.addEvent 0 true [1]), .at 0 (.pop 0 0), .at 1 .register,
+    .at 1 .regHandler, .at 1 (.addEvent 0 true [5]), .at 1 (.pop 1 0), .at 1 (.ruleReturns 0 false), .at 1 (.taskDone 0),
     .at 1 (.setErrors 0), .at 1 (.errFinish 0), .at 1 .post, .at 1 (.observerRuns .wait)], rfl⟩,
     by decide, _, rfl, by decide⟩
 
 /-- a worker occupied in one cascade cannot take a task of another -/
-example : Sys.run (Sys.init 1 false) [.newRoot, .newRoot, .at 0 (.addEvent 0 true [1]),
-    .at 1 (.addEvent 0 true [2]), .at 0 (.pop 0 0), .at 1 (.pop 0 0)] = none := by decide
+example : Sys.run (Sys.init 1 false) [.newRoot, .newRoot, .at 0 .regHandler, .at 0 (.addEvent 0 true [1]),
+    .at 1 .regHandler, .at 1 (.addEvent 0 true [2]), .at 0 (.pop 0 0), .at 1 (.pop 0 0)] = none := by decide
 
 /-- progress in the system: a handed, unfinished monitor of some cascade and a worker that is free
     in every cascade ⇒ an engine step of that cascade is enabled -/
